@@ -14,6 +14,7 @@ import (
 	"os"
 	"runtime/debug"
 	"strings"
+	"syscall"
 
 	"verifsim/simmap"
 	"verifsim/simos"
@@ -115,6 +116,14 @@ func RunOnce(mainFn func(), c *Case) (r Run) {
 	r.OutLen = len(out)
 	if len(out) > 0 {
 		_, err := parser.ParseFile(token.NewFileSet(), "out.go", out, parser.AllErrors)
+		if err != nil {
+			// a grammar without an initializer block yields a file without a
+			// package clause (the user is expected to supply it): accept that
+			_, err2 := parser.ParseFile(token.NewFileSet(), "out.go", append([]byte("package p\n"), out...), parser.AllErrors)
+			if err2 == nil {
+				err = nil
+			}
+		}
 		r.OutGoOK = err == nil
 		if err != nil {
 			r.OutGoErr = strings.SplitN(err.Error(), "\n", 2)[0]
@@ -133,6 +142,9 @@ func RunOnce(mainFn func(), c *Case) (r Run) {
 // Serve reads cases from stdin and writes results to stdout, one JSON value
 // per line, until EOF.
 func Serve(mainFn func()) {
+	// a runaway allocation in the code under test must kill this child, not the sandbox
+	lim := syscall.Rlimit{Cur: 6 << 30, Max: 6 << 30}
+	syscall.Setrlimit(syscall.RLIMIT_AS, &lim)
 	in := bufio.NewReaderSize(os.Stdin, 1<<20)
 	out := bufio.NewWriter(os.Stdout)
 	dec := json.NewDecoder(in)
